@@ -1,4 +1,5 @@
 """C08 — ISO 9797-1 padding methods 1, 2, 3 are exact."""
+import core
 from core import Case, enc_b
 
 OBLIGATIONS = ["Psec.Props.C08.pad1Count_least", "Psec.Props.C08.pad1_spec", "Psec.Props.C08.pad2_spec", "Psec.Props.C08.pad2_count", "Psec.Props.C08.pad3_spec", "Psec.Props.C08.pad_length", "Psec.Props.C08.pad_prefix", "Psec.Props.C08.pad2_injective", "Psec.Props.C08.pad3_injective", "Psec.Props.C08.pad1_not_injective"]
@@ -17,6 +18,10 @@ def patterns(rng, n):
         if n >= 3:
             yield bytes(rng.getrandbits(8) for _ in range(n - 3)) + b"\x80\x00\x00"
             yield bytes(rng.getrandbits(8) for _ in range(n - 3)) + b"\x01\x80\x80"
+
+
+def rb(rng, n):
+    return bytes(rng.getrandbits(8) for _ in range(n))
 
 
 def generate(rng, tier, seed):
@@ -60,3 +65,32 @@ def generate(rng, tier, seed):
                             if int.from_bytes(v[:b], "big") != 8 * ln:
                                 c.fail("method 3 length block wrong")
                     yield c
+    # method 3 at the edge of its restriction (bit length just fits / just does not fit the length block) and long messages at
+    # buffer-size boundaries for all three methods
+    edge = []
+    for b in (1, 2):
+        top = 256 ** b // 8          # first length whose bit count no longer fits
+        edge += [(b, ln) for ln in (top // 2 - 1, top // 2, top // 2 + 1, top - 2, top - 1, top, top + 1)]
+    if tier == "thorough":
+        edge += [(3, 2 ** 20 - 1), (3, 2 ** 20), (3, 2 ** 20 + 1)]
+    for b, ln in edge:
+        data = rb(rng, ln)
+        c = Case("pad_iso_3:edge-of-restriction", {"bs": b, "len": ln})
+        r = c.call("mac.pad_iso_3", data, b)
+        if 8 * ln < 256 ** b:
+            if not r.ok:
+                c.fail(f"message of {ln} bytes (bit length fits a {b}-byte block) rejected with {r.err}")
+            elif int.from_bytes(r.value[:b], "big") != 8 * ln or r.value[b:b + ln] != data or len(r.value) % b or any(r.value[b + ln:]):
+                c.fail("method 3 result wrong at the edge of the restriction")
+        else:
+            c.nontrivial = False
+        yield c
+    for ln in core.big_lengths(rng, tier, 16):
+        data = rb(rng, ln)
+        for m, b in ((1, 8), (2, 16), (3, 8), (rng.choice((1, 2, 3)), rng.choice((3, 7, 24)))):
+            c = Case(f"pad_iso_{m}:long", {"bs": b, "len": ln})
+            r = c.call(f"mac.pad_iso_{m}", data, b)
+            i = c.line(f"spec.pad\ti:{m}\t{enc_b(data)}\ti:{b}")
+            c.pred("padding equals ISO 9797-1 specification (long message)",
+                   lambda rep, r=r, i=i: None if (r.ok and rep[i] == "ok\t" + enc_b(r.value)) else f"{'raised ' + r.err if not r.ok else 'differs'}")
+            yield c
